@@ -72,8 +72,8 @@ func isChoiceMsg(md protoreflect.MessageDescriptor) bool {
 	return md.Oneofs().ByName("choice") != nil && md.Fields().Len() == md.Oneofs().ByName("choice").Fields().Len()
 }
 
-var dateTexts = []string{"2020", "2020-02", "2020-02-29", "2019-12-31", "1650-03-04", "1066", "2300-06"}
-var dateTimeTexts = []string{"2020", "2020-02", "2020-02-29", "2020-02-29T10:30:15Z", "2020-02-29T10:30:15+05:30", "2020-02-29T10:30:15.250-11:00", "2019-12-31T23:59:59.999999Z", "2021-06-15T10:30:00-03:30", "2000-01-01T23:50:00-00:30", "2300-06-07T08:09:10+02:00", "1600-02-29T23:59:59Z"}
+var dateTexts = []string{"2020", "2020-02", "2020-02-29", "2019-12-31", "1650-03-04", "1066", "2300-06", "2020-02-29@+10:00", "2020@-11:30", "2021-01@+14:00"}
+var dateTimeTexts = []string{"2020", "2020-02", "2020-02-29", "2020-02-29T10:30:15Z", "2020-02-29T10:30:15+05:30", "2020-02-29T10:30:15.250-11:00", "2019-12-31T23:59:59.999999Z", "2021-06-15T10:30:00-03:30", "2000-01-01T23:50:00-00:30", "2300-06-07T08:09:10+02:00", "1600-02-29T23:59:59Z", "2020@+10:00", "2020-01@+14:00", "2020-01-01@+05:30", "2021-03-01@-08:00"}
 var instantTexts = []string{"2020-02-29T10:30:15Z", "2020-02-29T10:30:15.250+05:30", "2019-12-31T23:59:59.999999-11:00", "2021-06-15T23:45:10.250-09:30", "2021-06-15T23:45:10+00:45", "2290-01-02T03:04:05Z", "1677-09-20T00:00:00-05:00"}
 var timeTexts = []string{"10:30:15", "10:30:15.250", "23:59:59.999999", "08:30:00.045", "23:59:59.000120"}
 var stringTexts = []string{"a", "b c", "é€", "x-1", "Smith"}
